@@ -6,6 +6,7 @@ import (
 	"errors"
 	"fmt"
 	"io"
+	"runtime"
 
 	"github.com/oasisprotocol/ed25519"
 )
@@ -340,6 +341,14 @@ func checkAccessors(c *Case, v *Verdict) {
 			lastPub = pk
 		case 1:
 			sd := k.Seed()
+			if r.Chance(1, 200) {
+				// the copy must survive a garbage collection and its finalizers
+				runtime.GC()
+				runtime.GC()
+				for i := 0; i < 50; i++ {
+					runtime.Gosched()
+				}
+			}
 			if !bytes.Equal(sd, model[:32]) {
 				fail("seed", hx(model[:32]), hexOrNil(sd), "Seed() differs from the key's seed half")
 				return
